@@ -3,9 +3,11 @@ mod dynop;
 mod elem;
 mod families;
 mod gen;
+mod gen2;
 mod job;
 mod known;
 mod oracle;
+mod oracle2;
 mod plan;
 mod probe;
 mod rec;
